@@ -8,6 +8,7 @@
 mod conc;
 mod enc;
 mod run;
+mod sysdrv;
 
 /// Counting allocator: live and peak heap bytes of the process (used by the `tailrec` measurement).
 pub mod alloc_count {
@@ -312,6 +313,7 @@ fn main() {
             println!("{{\"processed\": {n}, \"bad\": {bad}}}");
         }
         "conc" => conc::main(&args),
+        "sys" => sysdrv::main(&args),
         "text" => {
             for l in read_lines(&args[2]) {
                 let j: J = serde_json::from_str(&l).unwrap();
